@@ -780,6 +780,10 @@ def configs(tier):
             supplied=True)
         add(cycle='F', sslsolver=False, supplied=True, always_return=True)
     else:
+        # per-configuration path budget: generous, the thorough tier is
+        # also run next to other checks (a smaller budget was exhausted
+        # with prefixes pending => inconclusive, never "held")
+        base['budget'] = 3600
         for cyc in cycles:
             for ssl in ssls:
                 for sup in (False, True):
